@@ -12,7 +12,7 @@
 (* A program Prog[p] is a sequence of calls [op, n]; producer p pushes the values <<p,1>>, <<p,2>>, ... (values of a       *)
 (* failed or partial call are dropped, so a value whose push failed must never be received).                               *)
 (* Ghost state (never read by the algorithm): tval = values in the order the queue accepted them ("tickets", taken at the  *)
-(* index CAS / fetch_add / publishing store), nrecv = tickets handed to consumers, okset / gotv = values reported pushed /  *)
+(* index CAS / fetch_add / publishing store), nrecv = tickets handed to consumers, okset / got = values reported pushed /   *)
 (* returned, unread / published = per-slot data state, and the snapshots that justify a failed call.                        *)
 (* Bug # "none" selects a deliberately broken variant (anti-vacuity witness).                                              *)
 EXTENDS Naturals, Integers, Sequences, FiniteSets, TLC
@@ -21,12 +21,12 @@ Proc == Prod \cup Cons
 NoVal == <<0, 0>>
 VARIABLES tail, head, whead, rtail, mark, slot,          \* the queue
           pc, ip, seq, loc,                                \* processes: control, program position, values used, locals
-          tval, nrecv, npub, ndone, okset, gotv, got,      \* ghost ledger
+          tval, nrecv, npub, ndone, okset, got,            \* ghost ledger
           unread, published, torn, unjust                  \* ghost slot state and verdict flags
-vars == <<tail, head, whead, rtail, mark, slot, pc, ip, seq, loc, tval, nrecv, npub, ndone, okset, gotv, got,
+vars == <<tail, head, whead, rtail, mark, slot, pc, ip, seq, loc, tval, nrecv, npub, ndone, okset, got,
           unread, published, torn, unjust>>
 qvars == <<tail, head, whead, rtail, mark, slot>>
-gvars == <<tval, nrecv, npub, ndone, okset, gotv, got, unread, published, torn, unjust>>
+gvars == <<tval, nrecv, npub, ndone, okset, got, unread, published, torn, unjust>>
 
 Idx(x) == x % Cap
 Turn(x) == x \div Cap
@@ -38,7 +38,7 @@ TTR(x) == (2 * Turn(x) + 2) % MarkMod         \* this_turn_read
 Full(h, t) == h # t /\ Idx(h) = Idx(t)        \* check_full: h != t && (h << lshift) == (t << lshift)
 Min(a, b) == IF a < b THEN a ELSE b
 Range(s) == {s[i] : i \in 1..Len(s)}
-L0 == [t |-> 0, h |-> 0, prev |-> 0, n |-> 0, k |-> 0, vals |-> <<>>, buf |-> <<>>, tk |-> 0, snap |-> 0]
+L0 == [t |-> 0, h |-> 0, n |-> 0, k |-> 0, buf |-> <<>>, tk |-> 0, snap |-> 0]
 
 \* mark a slot carries before the first write at or after index s (all earlier turns read)
 InitMark(s, i) == LET x == CHOOSE y \in {Inc(s, d) : d \in 0..Cap-1} : Idx(y) = i IN LTR(x)
@@ -47,7 +47,7 @@ Init == /\ \E s \in StartSet : /\ tail = s /\ head = s /\ whead = s /\ rtail = s
         /\ slot = [i \in 0..Cap-1 |-> NoVal]
         /\ pc = [p \in Proc |-> "idle"] /\ ip = [p \in Proc |-> 1] /\ seq = [p \in Prod |-> 0]
         /\ loc = [p \in Proc |-> L0]
-        /\ tval = <<>> /\ nrecv = 0 /\ npub = 0 /\ ndone = 0 /\ okset = {} /\ gotv = <<>> /\ got = {}
+        /\ tval = <<>> /\ nrecv = 0 /\ npub = 0 /\ ndone = 0 /\ okset = {} /\ got = {}
         /\ unread = [i \in 0..Cap-1 |-> FALSE] /\ published = [i \in 0..Cap-1 |-> FALSE]
         /\ torn = FALSE /\ unjust = FALSE
 
@@ -58,16 +58,15 @@ Goto(p, s) == pc' = [pc EXCEPT ![p] = s]
 \* ---- returning from a call (ghost bookkeeping only)
 \* producer: k values accepted out of the call's vals; `why`: the snapshot that must justify accepting fewer than asked
 RetPush(p, k, justified) ==
-    /\ okset' = okset \cup {loc[p].vals[i] : i \in 1..k}
-    /\ unjust' = (unjust \/ (k < Len(loc[p].vals) /\ ~justified))
-    /\ seq' = [seq EXCEPT ![p] = @ + Len(loc[p].vals)]
-    /\ ip' = [ip EXCEPT ![p] = @ + 1] /\ Goto(p, "idle")
-    /\ UNCHANGED <<gotv, got>>
+    /\ okset' = okset \cup {NewVals(p)[i] : i \in 1..k}
+    /\ unjust' = (unjust \/ (k < Len(NewVals(p)) /\ ~justified))
+    /\ seq' = [seq EXCEPT ![p] = @ + Len(NewVals(p))]
+    /\ ip' = [ip EXCEPT ![p] = @ + 1] /\ Goto(p, "idle") /\ loc' = [loc EXCEPT ![p] = L0]
+    /\ UNCHANGED <<got>>
 RetPop(c, buf, asked, justified) ==
-    /\ gotv' = gotv \o buf
     /\ got' = got \cup {<<loc[c].tk + i - 1, buf[i]>> : i \in 1..Len(buf)}
     /\ unjust' = (unjust \/ (Len(buf) < asked /\ ~justified))
-    /\ ip' = [ip EXCEPT ![c] = @ + 1] /\ Goto(c, "idle")
+    /\ ip' = [ip EXCEPT ![c] = @ + 1] /\ Goto(c, "idle") /\ loc' = [loc EXCEPT ![c] = L0]
     /\ UNCHANGED <<okset, seq>>
 \* ---- ghost slot data state
 WriteSlot(i) == /\ torn' = (torn \/ unread[i])                         \* overwritten before it was read
@@ -79,7 +78,7 @@ Publish(S) == published' = [i \in 0..Cap-1 |-> IF i \in S THEN TRUE ELSE publish
 (* ======================================================= MPMC ======================================================= *)
 \* push: auto t = tail.load()
 P_LdTail(p) == /\ Kind = "mpmc" /\ At(p, "push")
-               /\ loc' = [loc EXCEPT ![p] = [L0 EXCEPT !.t = tail, !.vals = NewVals(p)]] /\ Goto(p, "p_ldmark")
+               /\ loc' = [loc EXCEPT ![p] = [L0 EXCEPT !.t = tail]] /\ Goto(p, "p_ldmark")
                /\ UNCHANGED <<qvars, gvars, ip, seq>>
 \* if (mark.load() == last_turn_read(t))
 P_LdMark(p) == /\ pc[p] = "p_ldmark"
@@ -88,44 +87,44 @@ P_LdMark(p) == /\ pc[p] = "p_ldmark"
 \* if (tail.compare_exchange_strong(t, t + 1))
 P_Cas(p) == /\ pc[p] = "p_cas"
             /\ IF tail = loc[p].t
-               THEN /\ tail' = Inc(tail, 1) /\ tval' = Append(tval, loc[p].vals[1]) /\ npub' = npub + 1
+               THEN /\ tail' = Inc(tail, 1) /\ tval' = Append(tval, NewVals(p)[1]) /\ npub' = npub + 1
                     /\ Goto(p, "p_write") /\ UNCHANGED loc
                ELSE /\ loc' = [loc EXCEPT ![p].t = tail] /\ Goto(p, "p_ldmark") /\ UNCHANGED <<tail, tval, npub>>
-            /\ UNCHANGED <<head, whead, rtail, mark, slot, ip, seq, nrecv, ndone, okset, gotv, got, unread, published, torn, unjust>>
+            /\ UNCHANGED <<head, whead, rtail, mark, slot, ip, seq, nrecv, ndone, okset, got, unread, published, torn, unjust>>
 \* slot = x;   (Bug "mpmc_pub_first": the mark is stored before the slot is written)
 P_Write(p) == /\ pc[p] = "p_write"
               /\ IF Bug = "mpmc_pub_first"
                  THEN /\ mark' = [mark EXCEPT ![Idx(loc[p].t)] = TTW(loc[p].t)] /\ Publish({Idx(loc[p].t)})
                       /\ UNCHANGED <<slot, torn, unread>>
-                 ELSE /\ slot' = [slot EXCEPT ![Idx(loc[p].t)] = loc[p].vals[1]] /\ WriteSlot(Idx(loc[p].t)) /\ UNCHANGED mark
+                 ELSE /\ slot' = [slot EXCEPT ![Idx(loc[p].t)] = NewVals(p)[1]] /\ WriteSlot(Idx(loc[p].t)) /\ UNCHANGED mark
               /\ Goto(p, "p_stmark")
-              /\ UNCHANGED <<tail, head, whead, rtail, ip, seq, loc, tval, nrecv, npub, ndone, okset, gotv, got, unjust>>
+              /\ UNCHANGED <<tail, head, whead, rtail, ip, seq, loc, tval, nrecv, npub, ndone, okset, got, unjust>>
 \* mark.store(this_turn_write(t)); return true
 P_StMark(p) == /\ pc[p] = "p_stmark"
                /\ IF Bug = "mpmc_pub_first"
-                  THEN /\ slot' = [slot EXCEPT ![Idx(loc[p].t)] = loc[p].vals[1]]
+                  THEN /\ slot' = [slot EXCEPT ![Idx(loc[p].t)] = NewVals(p)[1]]
                        /\ torn' = (torn \/ unread[Idx(loc[p].t)]) /\ unread' = [unread EXCEPT ![Idx(loc[p].t)] = TRUE]
                        /\ UNCHANGED <<mark, published>>
                   ELSE /\ mark' = [mark EXCEPT ![Idx(loc[p].t)] = TTW(loc[p].t)] /\ Publish({Idx(loc[p].t)})
                        /\ UNCHANGED <<slot, torn, unread>>
                /\ RetPush(p, 1, TRUE)
-               /\ UNCHANGED <<tail, head, whead, rtail, loc, tval, nrecv, npub, ndone>>
+               /\ UNCHANGED <<tail, head, whead, rtail, tval, nrecv, npub, ndone>>
 \* else { prevTail = t; h = head.load();
 P_LdHead(p) == /\ pc[p] = "p_ldhead"
-               /\ loc' = [loc EXCEPT ![p].prev = loc[p].t, ![p].h = head, ![p].snap = Len(tval) - nrecv]
+               /\ loc' = [loc EXCEPT ![p].h = head, ![p].snap = Len(tval) - nrecv]
                /\ Goto(p, "p_ldtail2") /\ UNCHANGED <<qvars, gvars, ip, seq>>
 \*        t = tail.load(); if (t == prevTail && check_full(h, t)) return false; }
 P_LdTail2(p) == /\ pc[p] = "p_ldtail2"
-                /\ IF tail = loc[p].prev /\ Full(loc[p].h, tail)
-                   THEN RetPush(p, 0, loc[p].snap = Cap) /\ UNCHANGED loc
-                   ELSE /\ loc' = [loc EXCEPT ![p].t = tail] /\ Goto(p, "p_ldmark") /\ UNCHANGED <<ip, seq, okset, gotv, got, unjust>>
+                /\ IF tail = loc[p].t /\ Full(loc[p].h, tail)
+                   THEN RetPush(p, 0, loc[p].snap = Cap)
+                   ELSE /\ loc' = [loc EXCEPT ![p].t = tail] /\ Goto(p, "p_ldmark") /\ UNCHANGED <<ip, seq, okset, got, unjust>>
                 /\ UNCHANGED <<qvars, tval, nrecv, npub, ndone, unread, published, torn>>
 \* send: t = tail.fetch_add(1); while (mark.load() != last_turn_read(t)) pause();  then as push
 S_Fa(p) == /\ Kind = "mpmc" /\ At(p, "send")
-           /\ loc' = [loc EXCEPT ![p] = [L0 EXCEPT !.t = tail, !.vals = NewVals(p)]]
+           /\ loc' = [loc EXCEPT ![p] = [L0 EXCEPT !.t = tail]]
            /\ tail' = Inc(tail, 1) /\ tval' = Append(tval, NewVals(p)[1]) /\ npub' = npub + 1
            /\ Goto(p, "s_spin")
-           /\ UNCHANGED <<head, whead, rtail, mark, slot, ip, seq, nrecv, ndone, okset, gotv, got, unread, published, torn, unjust>>
+           /\ UNCHANGED <<head, whead, rtail, mark, slot, ip, seq, nrecv, ndone, okset, got, unread, published, torn, unjust>>
 S_Spin(p) == /\ pc[p] = "s_spin" /\ mark[Idx(loc[p].t)] = LTR(loc[p].t)
              /\ Goto(p, "p_write") /\ UNCHANGED <<qvars, gvars, ip, seq, loc>>
 \* pop: auto h = head.load()
@@ -140,58 +139,58 @@ C_Cas(c) == /\ pc[c] = "c_cas"
                THEN /\ head' = Inc(head, 1) /\ loc' = [loc EXCEPT ![c].tk = nrecv] /\ nrecv' = nrecv + 1 /\ ndone' = ndone + 1
                     /\ Goto(c, "c_read")
                ELSE /\ loc' = [loc EXCEPT ![c].h = head] /\ Goto(c, "c_ldmark") /\ UNCHANGED <<head, nrecv, ndone>>
-            /\ UNCHANGED <<tail, whead, rtail, mark, slot, ip, seq, tval, npub, okset, gotv, got, unread, published, torn, unjust>>
+            /\ UNCHANGED <<tail, whead, rtail, mark, slot, ip, seq, tval, npub, okset, got, unread, published, torn, unjust>>
 C_Read(c) == /\ pc[c] = "c_read"
              /\ loc' = [loc EXCEPT ![c].buf = <<slot[Idx(loc[c].h)]>>] /\ ReadSlot(Idx(loc[c].h))
              /\ Goto(c, "c_stmark")
-             /\ UNCHANGED <<qvars, ip, seq, tval, nrecv, npub, ndone, okset, gotv, got, unjust>>
+             /\ UNCHANGED <<qvars, ip, seq, tval, nrecv, npub, ndone, okset, got, unjust>>
 C_StMark(c) == /\ pc[c] = "c_stmark"
                /\ mark' = [mark EXCEPT ![Idx(loc[c].h)] = TTR(loc[c].h)]
                /\ RetPop(c, loc[c].buf, 1, TRUE)
-               /\ UNCHANGED <<tail, head, whead, rtail, slot, loc, tval, nrecv, npub, ndone, unread, published, torn>>
+               /\ UNCHANGED <<tail, head, whead, rtail, slot, tval, nrecv, npub, ndone, unread, published, torn>>
 C_LdTail(c) == /\ pc[c] = "c_ldtail"
-               /\ loc' = [loc EXCEPT ![c].prev = loc[c].h, ![c].t = tail, ![c].snap = Len(tval) - nrecv]
+               /\ loc' = [loc EXCEPT ![c].t = tail, ![c].snap = Len(tval) - nrecv]
                /\ Goto(c, "c_ldhead2") /\ UNCHANGED <<qvars, gvars, ip, seq>>
 C_LdHead2(c) == /\ pc[c] = "c_ldhead2"
-                /\ IF head = loc[c].prev /\ head = loc[c].t
-                   THEN RetPop(c, <<>>, 1, loc[c].snap = 0) /\ UNCHANGED loc
-                   ELSE /\ loc' = [loc EXCEPT ![c].h = head] /\ Goto(c, "c_ldmark") /\ UNCHANGED <<ip, seq, okset, gotv, got, unjust>>
+                /\ IF head = loc[c].h /\ head = loc[c].t
+                   THEN RetPop(c, <<>>, 1, loc[c].snap = 0)
+                   ELSE /\ loc' = [loc EXCEPT ![c].h = head] /\ Goto(c, "c_ldmark") /\ UNCHANGED <<ip, seq, okset, got, unjust>>
                 /\ UNCHANGED <<qvars, tval, nrecv, npub, ndone, unread, published, torn>>
 R_Fa(c) == /\ Kind = "mpmc" /\ At(c, "recv")
            /\ loc' = [loc EXCEPT ![c] = [L0 EXCEPT !.h = head, !.tk = nrecv]]
            /\ head' = Inc(head, 1) /\ nrecv' = nrecv + 1 /\ ndone' = ndone + 1
            /\ Goto(c, "r_spin")
-           /\ UNCHANGED <<tail, whead, rtail, mark, slot, ip, seq, tval, npub, okset, gotv, got, unread, published, torn, unjust>>
+           /\ UNCHANGED <<tail, whead, rtail, mark, slot, ip, seq, tval, npub, okset, got, unread, published, torn, unjust>>
 R_Spin(c) == /\ pc[c] = "r_spin" /\ mark[Idx(loc[c].h)] = TTW(loc[c].h)
              /\ Goto(c, "c_read") /\ UNCHANGED <<qvars, gvars, ip, seq, loc>>
 
 (* ==================================================== batch MPMC ==================================================== *)
 \* push_batch(x, n): wt = tail.load()
 B_LdTail(p) == /\ Kind = "batch" /\ At(p, "push")
-               /\ loc' = [loc EXCEPT ![p] = [L0 EXCEPT !.t = tail, !.vals = NewVals(p)]] /\ Goto(p, "b_ldhead")
+               /\ loc' = [loc EXCEPT ![p] = [L0 EXCEPT !.t = tail]] /\ Goto(p, "b_ldhead")
                /\ UNCHANGED <<qvars, gvars, ip, seq>>
 \* rh = head.load(); wn = min(n, capacity - (wt - rh)); if (wn == 0) return 0;
 B_LdHead(p) == /\ pc[p] = "b_ldhead"
-               /\ LET wn == Min(Len(loc[p].vals), Diff(Cap, Diff(loc[p].t, head))) IN
+               /\ LET wn == Min(Len(NewVals(p)), Diff(Cap, Diff(loc[p].t, head))) IN
                   IF wn = 0
-                  THEN RetPush(p, 0, Len(tval) - ndone = Cap) /\ UNCHANGED loc
+                  THEN RetPush(p, 0, Len(tval) - ndone = Cap)
                   ELSE /\ loc' = [loc EXCEPT ![p].h = head, ![p].n = wn, ![p].snap = Cap - (Len(tval) - ndone)]
-                       /\ Goto(p, "b_cas") /\ UNCHANGED <<ip, seq, okset, gotv, got, unjust>>
+                       /\ Goto(p, "b_cas") /\ UNCHANGED <<ip, seq, okset, got, unjust>>
                /\ UNCHANGED <<qvars, tval, nrecv, npub, ndone, unread, published, torn>>
 \* if (!tail.compare_exchange_strong(wt, wt + wn)) continue;
 B_Cas(p) == /\ pc[p] = "b_cas"
             /\ IF tail = loc[p].t
-               THEN /\ tail' = Inc(tail, loc[p].n) /\ tval' = tval \o SubSeq(loc[p].vals, 1, loc[p].n)
+               THEN /\ tail' = Inc(tail, loc[p].n) /\ tval' = tval \o SubSeq(NewVals(p), 1, loc[p].n)
                     /\ loc' = [loc EXCEPT ![p].k = 0] /\ Goto(p, "b_copy")
                ELSE /\ loc' = [loc EXCEPT ![p].t = tail] /\ Goto(p, "b_ldhead") /\ UNCHANGED <<tail, tval>>
-            /\ UNCHANGED <<head, whead, rtail, mark, slot, ip, seq, nrecv, npub, ndone, okset, gotv, got, unread, published, torn, unjust>>
+            /\ UNCHANGED <<head, whead, rtail, mark, slot, ip, seq, nrecv, npub, ndone, okset, got, unread, published, torn, unjust>>
 \* memcpy, one element per step
 B_Copy(p) == /\ pc[p] = "b_copy"
              /\ LET i == Idx(Inc(loc[p].t, loc[p].k)) IN
-                /\ slot' = [slot EXCEPT ![i] = loc[p].vals[loc[p].k + 1]] /\ WriteSlot(i)
+                /\ slot' = [slot EXCEPT ![i] = NewVals(p)[loc[p].k + 1]] /\ WriteSlot(i)
              /\ loc' = [loc EXCEPT ![p].k = @ + 1]
              /\ Goto(p, IF loc[p].k + 1 = loc[p].n THEN "b_pub" ELSE "b_copy")
-             /\ UNCHANGED <<tail, head, whead, rtail, mark, ip, seq, tval, nrecv, npub, ndone, okset, gotv, got, unjust>>
+             /\ UNCHANGED <<tail, head, whead, rtail, mark, ip, seq, tval, nrecv, npub, ndone, okset, got, unjust>>
 \* while (!write_head.compare_exchange_strong(wh = wt, wt + wn)) ;  return wn
 \* (Bug "batch_unordered_pub": write_head is advanced without waiting for the earlier claims)
 B_Pub(p) == /\ pc[p] = "b_pub"
@@ -199,7 +198,7 @@ B_Pub(p) == /\ pc[p] = "b_pub"
             /\ whead' = Inc(whead, loc[p].n) /\ npub' = npub + loc[p].n
             /\ published' = [i \in 0..Cap-1 |-> IF \E d \in 0..loc[p].n-1 : i = Idx(Inc(whead, d)) THEN TRUE ELSE published[i]]
             /\ RetPush(p, loc[p].n, loc[p].snap = loc[p].n)
-            /\ UNCHANGED <<tail, head, rtail, mark, slot, loc, tval, nrecv, ndone, unread, torn>>
+            /\ UNCHANGED <<tail, head, rtail, mark, slot, tval, nrecv, ndone, unread, torn>>
 \* pop_batch(x, n): rt = read_tail.load()
 D_LdRt(c) == /\ Kind = "batch" /\ At(c, "pop")
              /\ loc' = [loc EXCEPT ![c] = [L0 EXCEPT !.h = rtail]] /\ Goto(c, "d_ldwh")
@@ -208,62 +207,61 @@ D_LdRt(c) == /\ Kind = "batch" /\ At(c, "pop")
 D_LdWh(c) == /\ pc[c] = "d_ldwh"
              /\ LET rn == Min(Op(c).n, Diff(whead, loc[c].h)) IN
                 IF rn = 0
-                THEN RetPop(c, <<>>, Op(c).n, npub - nrecv = 0) /\ UNCHANGED loc
+                THEN RetPop(c, <<>>, Op(c).n, npub - nrecv = 0)
                 ELSE /\ loc' = [loc EXCEPT ![c].t = whead, ![c].n = rn, ![c].snap = npub - nrecv]
-                     /\ Goto(c, "d_cas") /\ UNCHANGED <<ip, seq, okset, gotv, got, unjust>>
+                     /\ Goto(c, "d_cas") /\ UNCHANGED <<ip, seq, okset, got, unjust>>
              /\ UNCHANGED <<qvars, tval, nrecv, npub, ndone, unread, published, torn>>
 D_Cas(c) == /\ pc[c] = "d_cas"
             /\ IF rtail = loc[c].h
                THEN /\ rtail' = Inc(rtail, loc[c].n) /\ loc' = [loc EXCEPT ![c].tk = nrecv, ![c].k = 0, ![c].buf = <<>>]
                     /\ nrecv' = nrecv + loc[c].n /\ Goto(c, "d_copy")
                ELSE /\ loc' = [loc EXCEPT ![c].h = rtail] /\ Goto(c, "d_ldwh") /\ UNCHANGED <<rtail, nrecv>>
-            /\ UNCHANGED <<tail, head, whead, mark, slot, ip, seq, tval, npub, ndone, okset, gotv, got, unread, published, torn, unjust>>
+            /\ UNCHANGED <<tail, head, whead, mark, slot, ip, seq, tval, npub, ndone, okset, got, unread, published, torn, unjust>>
 D_Copy(c) == /\ pc[c] = "d_copy"
              /\ LET i == Idx(Inc(loc[c].h, loc[c].k)) IN
                 /\ loc' = [loc EXCEPT ![c].buf = Append(@, slot[i]), ![c].k = @ + 1] /\ ReadSlot(i)
              /\ Goto(c, IF loc[c].k + 1 = loc[c].n THEN "d_pub" ELSE "d_copy")
-             /\ UNCHANGED <<qvars, ip, seq, tval, nrecv, npub, ndone, okset, gotv, got, unjust>>
+             /\ UNCHANGED <<qvars, ip, seq, tval, nrecv, npub, ndone, okset, got, unjust>>
 \* while (!head.compare_exchange_strong(rh = rt, rt + rn)) ;  return rn
 D_Pub(c) == /\ pc[c] = "d_pub" /\ head = loc[c].h
             /\ head' = Inc(head, loc[c].n) /\ ndone' = ndone + loc[c].n
             /\ RetPop(c, loc[c].buf, Op(c).n, loc[c].snap = loc[c].n)
-            /\ UNCHANGED <<tail, whead, rtail, mark, slot, loc, tval, nrecv, npub, unread, published, torn>>
+            /\ UNCHANGED <<tail, whead, rtail, mark, slot, tval, nrecv, npub, unread, published, torn>>
 
 (* ======================================================= SPSC ======================================================= *)
 \* push(x): t = tail.load(); if (check_full(head, t)) return false; slots[idx(t)] = x; tail.store(t + 1)
 \* push_batch(x, n) (op "pushn"): t = tail.load(); n = min(n, capacity - (t - head.load())); copy; tail.store(t + n)
 Q_LdTail(p) == /\ Kind = "spsc" /\ (At(p, "push") \/ At(p, "pushn"))
-               /\ loc' = [loc EXCEPT ![p] = [L0 EXCEPT !.t = tail, !.vals = NewVals(p)]] /\ Goto(p, "q_ldhead")
+               /\ loc' = [loc EXCEPT ![p] = [L0 EXCEPT !.t = tail]] /\ Goto(p, "q_ldhead")
                /\ UNCHANGED <<qvars, gvars, ip, seq>>
 Q_LdHead(p) == /\ pc[p] = "q_ldhead"
                /\ LET wn == IF Op(p).op = "push" THEN (IF Full(head, loc[p].t) THEN 0 ELSE 1)
-                            ELSE Min(Len(loc[p].vals), Diff(Cap, Diff(loc[p].t, head))) IN
+                            ELSE Min(Len(NewVals(p)), Diff(Cap, Diff(loc[p].t, head))) IN
                   IF wn = 0
-                  THEN RetPush(p, 0, Len(tval) - ndone = Cap) /\ UNCHANGED loc
+                  THEN RetPush(p, 0, Len(tval) - ndone = Cap)
                   ELSE /\ loc' = [loc EXCEPT ![p].h = head, ![p].n = wn, ![p].k = 0, ![p].snap = Cap - (Len(tval) - ndone)]
                        /\ Goto(p, IF Bug = "spsc_pub_first" THEN "q_sttail" ELSE "q_copy")
-                       /\ UNCHANGED <<ip, seq, okset, gotv, got, unjust>>
+                       /\ UNCHANGED <<ip, seq, okset, got, unjust>>
                /\ UNCHANGED <<qvars, tval, nrecv, npub, ndone, unread, published, torn>>
 Q_Copy(p) == /\ pc[p] = "q_copy"
              /\ LET i == Idx(Inc(loc[p].t, loc[p].k)) IN
-                /\ slot' = [slot EXCEPT ![i] = loc[p].vals[loc[p].k + 1]]
+                /\ slot' = [slot EXCEPT ![i] = NewVals(p)[loc[p].k + 1]]
                 /\ IF Bug = "spsc_pub_first"
                    THEN torn' = (torn \/ unread[i]) /\ unread' = [unread EXCEPT ![i] = TRUE] /\ UNCHANGED published
                    ELSE WriteSlot(i)
-             /\ loc' = [loc EXCEPT ![p].k = @ + 1]
              /\ IF loc[p].k + 1 < loc[p].n
-                THEN Goto(p, "q_copy") /\ UNCHANGED <<ip, seq, okset, gotv, got, unjust>>
+                THEN Goto(p, "q_copy") /\ loc' = [loc EXCEPT ![p].k = @ + 1] /\ UNCHANGED <<ip, seq, okset, got, unjust>>
                 ELSE IF Bug = "spsc_pub_first"
                      THEN RetPush(p, loc[p].n, loc[p].snap = loc[p].n)
-                     ELSE Goto(p, "q_sttail") /\ UNCHANGED <<ip, seq, okset, gotv, got, unjust>>
+                     ELSE Goto(p, "q_sttail") /\ loc' = [loc EXCEPT ![p].k = @ + 1] /\ UNCHANGED <<ip, seq, okset, got, unjust>>
              /\ UNCHANGED <<tail, head, whead, rtail, mark, tval, nrecv, npub, ndone>>
 Q_StTail(p) == /\ pc[p] = "q_sttail"
-               /\ tail' = Inc(loc[p].t, loc[p].n) /\ tval' = tval \o SubSeq(loc[p].vals, 1, loc[p].n) /\ npub' = npub + loc[p].n
+               /\ tail' = Inc(loc[p].t, loc[p].n) /\ tval' = tval \o SubSeq(NewVals(p), 1, loc[p].n) /\ npub' = npub + loc[p].n
                /\ published' = [i \in 0..Cap-1 |-> IF \E d \in 0..loc[p].n-1 : i = Idx(Inc(loc[p].t, d)) THEN TRUE ELSE published[i]]
                /\ IF Bug = "spsc_pub_first"
-                  THEN Goto(p, "q_copy") /\ UNCHANGED <<ip, seq, okset, gotv, got, unjust>>
+                  THEN Goto(p, "q_copy") /\ UNCHANGED <<ip, seq, loc, okset, got, unjust>>
                   ELSE RetPush(p, loc[p].n, loc[p].snap = loc[p].n)
-               /\ UNCHANGED <<head, whead, rtail, mark, slot, loc, nrecv, ndone, unread, torn>>
+               /\ UNCHANGED <<head, whead, rtail, mark, slot, nrecv, ndone, unread, torn>>
 \* pop(x): h = head.load(); if (check_empty(h, tail)) return false; x = slots[idx(h)]; head.store(h + 1)
 \* pop_batch (op "popn"): h = head.load(); n = min(n, tail.load() - h); copy; head.store(h + n)
 E_LdHead(c) == /\ Kind = "spsc" /\ (At(c, "pop") \/ At(c, "popn"))
@@ -273,20 +271,20 @@ E_LdTail(c) == /\ pc[c] = "e_ldtail"
                /\ LET rn == IF Op(c).op = "pop" THEN (IF loc[c].h = tail THEN 0 ELSE 1)
                             ELSE Min(Op(c).n, Diff(tail, loc[c].h)) IN
                   IF rn = 0
-                  THEN RetPop(c, <<>>, Op(c).n, npub - nrecv = 0) /\ UNCHANGED loc
+                  THEN RetPop(c, <<>>, Op(c).n, npub - nrecv = 0)
                   ELSE /\ loc' = [loc EXCEPT ![c].t = tail, ![c].n = rn, ![c].k = 0, ![c].buf = <<>>, ![c].tk = nrecv,
                                              ![c].snap = npub - nrecv]
-                       /\ Goto(c, "e_copy") /\ UNCHANGED <<ip, seq, okset, gotv, got, unjust>>
+                       /\ Goto(c, "e_copy") /\ UNCHANGED <<ip, seq, okset, got, unjust>>
                /\ UNCHANGED <<qvars, tval, nrecv, npub, ndone, unread, published, torn>>
 E_Copy(c) == /\ pc[c] = "e_copy"
              /\ LET i == Idx(Inc(loc[c].h, loc[c].k)) IN
                 /\ loc' = [loc EXCEPT ![c].buf = Append(@, slot[i]), ![c].k = @ + 1] /\ ReadSlot(i)
              /\ Goto(c, IF loc[c].k + 1 = loc[c].n THEN "e_sthead" ELSE "e_copy")
-             /\ UNCHANGED <<qvars, ip, seq, tval, nrecv, npub, ndone, okset, gotv, got, unjust>>
+             /\ UNCHANGED <<qvars, ip, seq, tval, nrecv, npub, ndone, okset, got, unjust>>
 E_StHead(c) == /\ pc[c] = "e_sthead"
                /\ head' = Inc(loc[c].h, loc[c].n) /\ nrecv' = nrecv + loc[c].n /\ ndone' = ndone + loc[c].n
                /\ RetPop(c, loc[c].buf, Op(c).n, loc[c].snap = loc[c].n)
-               /\ UNCHANGED <<tail, whead, rtail, mark, slot, loc, tval, npub, unread, published, torn>>
+               /\ UNCHANGED <<tail, whead, rtail, mark, slot, tval, npub, unread, published, torn>>
 
 Done == \A p \in Proc : pc[p] = "idle" /\ ip[p] > Len(Prog[p])
 Finished == Done /\ UNCHANGED vars
@@ -306,10 +304,11 @@ FairSpec == Spec /\ (\A p \in Prod : WF_vars(StepP(p))) /\ (\A c \in Cons : WF_v
 \* every value whose push/send returned success is returned by exactly one pop/recv; nothing else is returned
 RingContent == IF Kind = "batch" THEN {slot[Idx(Inc(head, d))] : d \in 0..Diff(whead, head) - 1}
                                  ELSE {slot[Idx(Inc(head, d))] : d \in 0..Diff(tail, head) - 1}
-ExactlyOnce == /\ Cardinality(Range(gotv)) = Len(gotv)                                 \* nothing returned twice
-               /\ Range(gotv) \subseteq Range(tval)                                     \* only values the queue accepted ...
-               /\ \A p \in Prod : pc[p] = "idle" => \A v \in Range(gotv) : v[1] = p => v \in okset   \* ... whose call (once over) reported success
-               /\ Done => Range(gotv) \cup RingContent = okset                         \* nothing lost: received or still stored
+GotV == {g[2] : g \in got}
+ExactlyOnce == /\ \A g1, g2 \in got : g1[2] = g2[2] => g1 = g2                              \* nothing returned twice
+               /\ GotV \subseteq Range(tval)                                              \* only values the queue accepted ...
+               /\ \A v \in GotV : pc[v[1]] = "idle" => v \in okset                         \* ... by a call that (once over) reported success
+               /\ Done => GotV \cup RingContent = okset                                  \* nothing lost: received or still stored
 \* the consumer holding ticket k returns the k-th accepted value: FIFO in the order of the index CAS / fetch_add / publishing
 \* store (the linearization points); a failed or partial call saw a full / empty queue at one instant (`unjust`)
 TicketFifo == \A g \in got : g[1] < Len(tval) /\ tval[g[1] + 1] = g[2]
